@@ -385,6 +385,8 @@ def main(argv):
     tier = "thorough" if a.tier == "thorough" else "quick"
     seed = a.seed if a.seed is not None else int(os.environ.get("VERIF_SEED") or 1)
     pid = a.pid
+    if a.replay:
+        a.replay = os.path.abspath(a.replay)
     t0 = time.time()
     pl = load_plugin(pid)
     rundir = os.path.join(RUN, pid + ("_replay" if a.replay else ""))
@@ -403,8 +405,14 @@ def main(argv):
         pl.pregen(REPO, COQ)
     rc, out, dt = coq_build(getattr(pl, "COQ_TARGETS", None))
     build_ok = rc == 0
+    eval_ok = build_ok
     if not build_ok:
         log("coq build failed:\n" + out[-3000:])
+        if getattr(pl, "CHECK_TARGETS", None):
+            # the proofs no longer build (e.g. a source-derived definition changed) but the executable model
+            # may: cases are still evaluated and the failing-input search still runs
+            rc2, out2, _ = coq_build(pl.CHECK_TARGETS)
+            eval_ok = rc2 == 0
     # 2. obligations
     obls, oblout = check_obligations(pl, rundir)
     if bad:
@@ -453,7 +461,7 @@ def main(argv):
 
     # 4. model evaluation
     results, errors = ([], [])
-    if cases and build_ok:
+    if cases and eval_ok:
         results, errors = eval_cases(pl, rundir, cases, kf_open)
     for e in errors:
         log(e)
@@ -535,7 +543,7 @@ def main(argv):
         # 3.4 failing-input search: adversarial stream with fresh seeds, prop only
         found = None
         searched = 0
-        if build_ok and not errors:
+        if eval_ok and not errors:
             for k in range(1, 4 if tier == "quick" else 9):
                 scs = []
                 for h in hs:
